@@ -236,11 +236,11 @@ theorem apply_same_db (s : State) (op : Op) (h1 : op ≠ .commit) (h2 : ∀ t, o
   | cdel i k => simp only [State.apply]; cases s.copies[i]? <;> exact ⟨rfl, rfl⟩
   | _ => exact ⟨rfl, rfl⟩
 
-theorem IInv.apply {K IK : Bytes → Prop} (hK : WFKeys K) {s : IState} {m : VMap} (hi : IInv K IK s m) (op : IOp)
+theorem IInv.apply {K IK : Bytes → Prop} (hK : WFKeys K) (mode : CacheKeying) {s : IState} {m : VMap} (hi : IInv K IK s m) (op : IOp)
     (hop : IOpOK K IK op) (hver : s.st.version + 1 < maxVer) :
-    ∃ m', IInv K IK (s.apply op) m' ∧ (s.apply op).st.version ≤ s.st.version + 1 ∧
+    ∃ m', IInv K IK (s.apply mode op) m' ∧ (s.apply mode op).st.version ≤ s.st.version + 1 ∧
       ∀ v, v ≤ s.st.version → IKeeps v op →
-        (v ≤ (s.apply op).st.version ∧ (∀ k, readAt m' v k = readAt m v k) ∧ AgreeUpTo v (s.apply op).idb s.idb) := by
+        (v ≤ (s.apply mode op).st.version ∧ (∀ k, readAt m' v k = readAt m v k) ∧ AgreeUpTo v (s.apply mode op).idb s.idb) := by
   -- an operation that only touches the cache or the pending index operations
   have same : ∀ s' : IState, s'.st = s.st → s'.idb = s.idb → (∀ e ∈ s'.idxOv, IK e.1) →
       ∃ m', IInv K IK s' m' ∧ s'.st.version ≤ s.st.version + 1 ∧
@@ -262,7 +262,7 @@ theorem IInv.apply {K IK : Bytes → Prop} (hK : WFKeys K) {s : IState} {m : VMa
   | indexBlock h hash txs =>
     refine same _ rfl rfl ?_
     obtain ⟨h1, h2, h3⟩ := hop
-    show ∀ e ∈ (s.indexBlock h hash txs).idxOv, IK e.1
+    show ∀ e ∈ (s.indexBlock mode h hash txs).idxOv, IK e.1
     unfold IState.indexBlock
     simp only
     have hfold : ∀ (l : List (Bytes × Nat)) (acc : Overlay), (∀ e ∈ acc, IK e.1) →
@@ -303,7 +303,7 @@ theorem IInv.apply {K IK : Bytes → Prop} (hK : WFKeys K) {s : IState} {m : VMa
     by_cases hc : sop = .commit
     · subst hc
       obtain ⟨m', hi', hle, hk⟩ := hi.st.apply hK .commit hop hver
-      have happ : s.apply (.store .commit) = s.commit := rfl
+      have happ : s.apply mode (.store .commit) = s.commit := rfl
       rw [happ]
       cases hm : s.st.main with
       | nil =>
@@ -367,7 +367,7 @@ theorem IInv.apply {K IK : Bytes → Prop} (hK : WFKeys K) {s : IState} {m : VMa
       · have hne2 : ∀ t, sop ≠ .rollback t := fun t e => hr ⟨t, e⟩
         obtain ⟨m', hi', hle, hk⟩ := hi.st.apply hK sop hop hver
         have hsame := apply_same_db s.st sop hc hne2
-        have happ : s.apply (.store sop) = { s with st := s.st.apply sop } := by
+        have happ : s.apply mode (.store sop) = { s with st := s.st.apply sop } := by
           cases sop <;> first | rfl | exact absurd rfl hc | exact absurd rfl (hne2 _)
         rw [happ]
         refine ⟨m', ⟨hi', by show IRep IK s.idb _; rw [hsame.1]; exact hi.idx, hi.pend⟩, hle, ?_⟩
@@ -380,26 +380,26 @@ end Canopy.Store
 namespace Canopy.Store
 open Canopy
 
-def runIOps (s : IState) (ops : List IOp) : IState := ops.foldl IState.apply s
+def runIOps (mode : CacheKeying) (s : IState) (ops : List IOp) : IState := ops.foldl (IState.apply mode) s
 
-theorem IInv.run {K IK : Bytes → Prop} (hK : WFKeys K) : ∀ (ops : List IOp) {s : IState} {m : VMap}, IInv K IK s m →
+theorem IInv.run {K IK : Bytes → Prop} (hK : WFKeys K) (mode : CacheKeying) : ∀ (ops : List IOp) {s : IState} {m : VMap}, IInv K IK s m →
     (∀ op ∈ ops, IOpOK K IK op) → s.st.version + ops.length + 1 < maxVer → ∀ v, v ≤ s.st.version →
     (∀ op ∈ ops, IKeeps v op) →
-    ∃ m', IInv K IK (runIOps s ops) m' ∧ v ≤ (runIOps s ops).st.version ∧
-      (runIOps s ops).st.version ≤ s.st.version + ops.length ∧
-      (∀ k, readAt m' v k = readAt m v k) ∧ AgreeUpTo v (runIOps s ops).idb s.idb := by
+    ∃ m', IInv K IK (runIOps mode s ops) m' ∧ v ≤ (runIOps mode s ops).st.version ∧
+      (runIOps mode s ops).st.version ≤ s.st.version + ops.length ∧
+      (∀ k, readAt m' v k = readAt m v k) ∧ AgreeUpTo v (runIOps mode s ops).idb s.idb := by
   intro ops
   induction ops with
   | nil => intro s m hi _ _ v hv _; exact ⟨m, hi, hv, by simp [runIOps], fun _ => rfl, AgreeUpTo.refl _ _⟩
   | cons op ops ih =>
     intro s m hi hops hver v hv hkeep
     simp only [List.length_cons] at hver
-    obtain ⟨m1, hi1, hv1, hk1⟩ := hi.apply hK op (hops op List.mem_cons_self) (by omega)
+    obtain ⟨m1, hi1, hv1, hk1⟩ := hi.apply hK mode op (hops op List.mem_cons_self) (by omega)
     obtain ⟨hvv, hread, hag⟩ := hk1 v hv (hkeep op List.mem_cons_self)
     obtain ⟨m2, hi2, hv2, hle2, hread2, hag2⟩ := ih hi1 (fun o ho => hops o (List.mem_cons_of_mem _ ho)) (by omega) v hvv
       (fun o ho => hkeep o (List.mem_cons_of_mem _ ho))
     refine ⟨m2, hi2, hv2, ?_, fun k => (hread2 k).trans (hread k), hag2.trans hag⟩
-    show (runIOps (s.apply op) ops).st.version ≤ _
+    show (runIOps mode (s.apply mode op) ops).st.version ≤ _
     simp only [List.length_cons]; omega
 
 /-- what a view reads from the indexer's database part depends only on the entries of version ≤ its
